@@ -62,7 +62,7 @@ SPECS = {
         "engines": [
             {"name": "hist", "tag": "c08", "extra": "prop=C08", "n": {"quick": 700, "thorough": 10000}},
         ],
-        "explanation": "Theorems over the Document.Update state machine with the CRDT layer abstracted (Section variables): a failing update changes nothing and drops the clone; clone = root is invariant under every sequence of updates given [proxy_agrees]. The hypothesis is what the engine validates on the real code: Root().Marshal() = Marshal() after every step of histories with failing/panicking updaters, remote packs, GC and undo/redo; and the all-or-nothing fingerprint (content, pending changes, checkpoint, vector, undo depth) around every failing update.",
+        "explanation": "Theorems over the Document.Update state machine with the CRDT layer abstracted (Section variables): a failing update changes nothing and drops the clone; clone = root is invariant under every sequence of updates given [proxy_agrees]. The hypothesis is what the engine validates on the real code: Root().Marshal() = Marshal() after every step of histories with failing/panicking updaters, remote packs, GC and undo/redo; and the all-or-nothing fingerprint (content, pending changes, checkpoint, vector, undo depth) around every failing update. A failed update's fingerprint covers the presence carried by every pending change and the client's own presence (finding P48, repaired by da0e87af: the clone's presence entries were shared with the document's); failing callbacks also set presence before they fail.",
         "assumptions": ["[proxy_agrees] (executing the pushed operations on the root reproduces what the json proxy did to the clone) is a hypothesis of C08_clone_equals_root, validated differentially, not proved for the real json/operations code"],
     },
     "C10": {
@@ -79,7 +79,7 @@ SPECS = {
             {"name": "life", "n": {"quick": 1200, "thorough": 12000}, "spec_corr": "lifecycle state machine of docs/design/document-client-lifecycle.md"},
             {"name": "hist", "tag": "c11", "extra": "prop=C11", "n": {"quick": 300, "thorough": 4000}},
         ],
-        "explanation": "Lifecycle specification (transcribed from the design document) with theorems for every state and call (PushPull only when attached, rejected call is a no-op, detached/removed/deactivated clients cannot write, removed is forever). The real RPC server is compared with the specification call by call (verdict, stored client/document status, number of stored changes) on all call sequences up to length 2 (quick) / 3 (thorough) over 2 client slots x 2 document keys plus seeded mostly-valid sequences of length 4-8; histories with detach/deactivate/re-attach are replayed through the protocol model, and the response vector must be exactly the minimum over the currently attached clients (a detached or deactivated client no longer holds back GC).",
+        "explanation": "Lifecycle specification (transcribed from the design document) with theorems for every state and call (PushPull only when attached, rejected call is a no-op, detached/removed/deactivated clients cannot write, removed is forever). The real RPC server is compared with the specification call by call (verdict, stored client/document status, number of stored changes) on all call sequences up to length 2 (quick) / 3 (thorough) over 2 client slots x 2 document keys plus seeded mostly-valid sequences of length 4-8; histories with detach/deactivate/re-attach are replayed through the protocol model, and the response vector must be exactly the minimum over the currently attached clients (a detached or deactivated client no longer holds back GC). A removed document stores no further change (C11_removed_stores_no_further_change; finding P47, repaired by 23534f91: the lifecycle model had followed the code, which stored what other attached clients pushed after the removal).",
         "assumptions": ["memory DB only; documents attached with presence disabled in the sequence engine"],
     },
     "C13": {
@@ -139,7 +139,7 @@ SPECS = {
             {"name": "undosync", "n": {"quick": 1, "thorough": 1}},
             {"name": "hist", "tag": "c15", "extra": "prop=C15", "n": {"quick": 300, "thorough": 5000}},
         ],
-        "explanation": "Exhaustive small scope on real Documents with a minimal in-process server that sends the minimum version vector back (so the clients garbage-collect as with a real server): every sequence over {edit, undo, redo, sync} x 2 clients with <= 3 edits per client, <= 2 undo/redo, >= 1 undo, length <= 5 (quick) / 6 (thorough), per flavor (object, array, text, counter, tree, array with moves), run to quiescence: replicas marshal identically, hold the same garbage, clone == root, nothing fails. Random larger histories with undo/redo (2-3 clients, late attachers, in-flight requests, snapshots) on the real server with the convergence, clone==root and server-rebuild oracles. Theorems: the reverse of a counter increase commutes with concurrent increases; the object restore under the old identity is refuted on the ElementRHT model with the witness the engines find (finding P20).",
+        "explanation": "Exhaustive small scope on real Documents with a minimal in-process server that sends the minimum version vector back (so the clients garbage-collect as with a real server): every sequence over {edit, undo, redo, sync} x 2 clients with <= 3 edits per client, <= 2 undo/redo, >= 1 undo, length <= 5 (quick) / 6 (thorough), per flavor (object, array, text, counter, tree, array with moves), run to quiescence: replicas marshal identically, hold the same garbage, clone == root, nothing fails. Random larger histories with undo/redo (2-3 clients, late attachers, in-flight requests, snapshots) on the real server with the convergence, clone==root and server-rebuild oracles. Theorems: the reverse of a counter increase commutes with concurrent increases; the object restore under the old identity is refuted on the ElementRHT model with the witness the engines find (finding P20). Flavor 'members' (object members that are containers with content: text, array) covers deleting such a member and undoing it (findings P46: a text value travelled empty, fc0c1a73; P49: undo failed on a purged container, 2adbc565).",
         "assumptions": [
             "PARTIAL: convergence of undo/redo is decided by execution (exhaustive in the small scope), not by a theorem; for objects, text and trees it is refuted (P20)",
         ],
